@@ -31,7 +31,7 @@ def supported(f, kind):
 
 class C17(Prop):
     id = 'C17'
-    rule_added = 'Dense online feeds also staggered (variables start at different samples) and with an idle poll. 20% of the dense online cases feed the inputs as (nested) fields of one object-typed variable.'
+    rule_added = 'Offline objects are evaluated again on a shorter (down to one sample) and on a longer trace. Dense online feeds also staggered (variables start at different samples) and with an idle poll. 20% of the dense online cases feed the inputs as (nested) fields of one object-typed variable.'
     rule = ('random formulas over the whole operator alphabet x the 6 monitor configurations {discrete offline, '
             'discrete online, discrete online after pastify, dense offline, dense online, dense online after '
             'pastify} x degenerate but well-formed data shapes (one-sample traces, a declared variable the formula '
@@ -75,8 +75,12 @@ class C17(Prop):
         n = rng.choice([1, 1, 1, 2, 3, 5, 12])
         shape = rng.choice(['plain', 'unused-declared', 'undeclared-supplied', 'permuted', 'plain'])
         extra = 'u_extra'
-        data = lang.gen_trace(rng, names + [extra], n)
-        return {'formula': f, 'kind': kind, 'data': data, 'shape': shape, 'perm': rng.random(),
+        data = lang.gen_trace(rng, names + [extra], n + 4)
+        # offline: the same object is evaluated again on traces of other lengths (shorter, down to one sample, and longer)
+        re = [rng.randint(1, n), n + rng.randint(1, 4)]
+        if rng.random() < 0.5:
+            re.reverse()
+        return {'formula': f, 'kind': kind, 'data': data, 'n': n, 're': re, 'shape': shape, 'perm': rng.random(),
                 'feed': rng.choice(['disjoint', 'disjoint', 'repeat-frontier', 'frontier-only', 'staggered', 'idle-poll']),
                 'stagger': [rng.randint(0, 2) for _ in range(4)], 'structs': rng.random() < 0.2}
 
@@ -85,16 +89,16 @@ class C17(Prop):
         f, kind, data, shape = case['formula'], case['kind'], case['data'], case['shape']
         used = lang.variables(f)
         names = sorted(k for k in data if k != 'u_extra')
-        n = len(data['u_extra'])
+        n = case.get('n') or len(data['u_extra'])
         text = lang.to_text(f)
         dense = kind.startswith('ct')
         sup = supported(f, kind)
         try:
             if dense:
-                sig = dict((k, [(Fr(i), data[k][i]) for i in range(n)]) for k in data)
+                sig = dict((k, [(Fr(i), data[k][i]) for i in range(len(data[k]))]) for k in data)
                 ref_dense.evaluate(f, sig) if not (lang.ops_of(f) & set(DISCRETE_ONLY)) else None
             else:
-                refd.evaluate(f, data, n)
+                refd.evaluate(f, data, len(data['u_extra']))
         except refd.Undefined:
             v.skip = 'reference undefined (domain error)'
             return v
@@ -130,11 +134,18 @@ class C17(Prop):
             if kind == 'dt_off':
                 ds = {'time': list(range(n))}
                 for k in supplied:
-                    ds[k] = list(data[k])
+                    ds[k] = list(data[k][:n])
                 r = m.evaluate(ds)
                 got_value = True
                 stage = 'second evaluation'
                 m.evaluate(ds)
+                for n2 in case.get('re') or []:
+                    stage = 'evaluation of %d samples by an object that evaluated %d before' % (n2, n)
+                    ds2 = {'time': list(range(n2))}
+                    for k in supplied:
+                        ds2[k] = list(data[k][:n2])
+                    m.evaluate(ds2)
+                    v.info['re-evaluations-on-other-lengths'] = v.info.get('re-evaluations-on-other-lengths', 0) + 1
             elif kind.startswith('dt_on'):
                 for i in range(n):
                     r = m.update(i, [(k, data[k][i]) for k in supplied])
@@ -144,6 +155,10 @@ class C17(Prop):
                 args = [[k, [[float(i), data[k][i]] for i in range(n)]] for k in supplied]
                 r = m.evaluate(*args)
                 got_value = True
+                for n2 in case.get('re') or []:
+                    stage = 'evaluation of %d samples by an object that evaluated %d before' % (n2, n)
+                    m.evaluate(*[[k, [[float(i), data[k][i]] for i in range(n2)]] for k in supplied])
+                    v.info['re-evaluations-on-other-lengths'] = v.info.get('re-evaluations-on-other-lengths', 0) + 1
             else:
                 half = max(1, n // 2)
                 feed = case.get('feed', 'disjoint')
